@@ -7,7 +7,7 @@
    (every real operation runs under the bucket's mutex, so a schedule of concurrent callers IS such
    a list; Wait() is a run of Try polls, lemma wait_polls_history). *)
 From Coq Require Import QArith Qminmax.
-From ZenoV Require Import Rate.Bucket Rate.BucketProofs Rate.Manager Rate.ManagerProofs Rate.Sweep Rate.SweepProofs.
+From ZenoV Require Import Rate.Bucket Rate.BucketProofs Rate.Manager Rate.ManagerProofs Rate.Sweep Rate.SweepProofs Rate.Cancel Rate.CancelProofs.
 Open Scope Z_scope.
 
 (* After every history - whatever the timing, monotone or not - tokens stay within [0, capacity]. *)
@@ -91,3 +91,40 @@ Theorem C13_sweep_spares_active_hosts : forall ops period tab h a,
   alookup h (srun period tab ops) = Some (last_access h a ops).
 Proof. exact sweep_spares_active_hosts_lemma. Qed.
 Print Assumptions C13_sweep_spares_active_hosts.
+
+(* Stopping the crawl (Rate/Cancel.v): BucketManager.Wait as a blocking call - callers enter (WCall),
+   poll (WPoll; the granted poll is the call's only exit), other traffic goes on (WOther) - and the
+   context handed to NewBucketManager is cancelled at arbitrary points (WCancel).  Every run of that
+   system is a run of the manager WITHOUT the cancellations, and the Wait calls that returned are
+   exactly that run's token grants, in order: Wait never returns without a token, cancelled or not. *)
+Theorem C13_cancel_wait_returns_only_with_token : forall xs s s' rets,
+  wrun s xs = Some (s', rets) ->
+  mrun (ws_mgr s) (erase xs) = Some (ws_mgr s', map ret_grant rets).
+Proof. exact cancel_returns_are_grants_lemma. Qed.
+Print Assumptions C13_cancel_wait_returns_only_with_token.
+
+(* ... so after a throttling failure at f on a host's bucket no Wait(host) returns before f + penalty,
+   whatever follows: callers entering and polling, further failures, successes, other hosts, and
+   cancellations wherever they fall (archive() sends its request when Wait returns). *)
+Theorem C13_cancel_penalty_honoured_across_stop : forall c r t0 h1 f st xs host s e s' rets t,
+  (0 <= c)%Q -> (0 <= r)%Q -> is_throttle st = true ->
+  Manager.find host (mg_tab (ws_mgr s)) = Some e ->
+  me_bucket e = fst (step (final (new_bucket c r t0) h1) (Fail f st)) ->
+  not_evicted host (erase xs) -> chain f (host_history host (erase xs)) ->
+  wrun s xs = Some (s', rets) ->
+  In t (host_returns host rets) -> f + penalty_spec (fails (me_bucket e)) <= t.
+Proof. exact cancel_penalty_lemma. Qed.
+Print Assumptions C13_cancel_penalty_honoured_across_stop.
+
+(* ... and in any stretch with clock readings inside [t1, t2] at most capacity + (t2 - t1) * rate
+   Wait(host) calls return, wherever the cancellations fall. *)
+Theorem C13_cancel_window_bound_across_stop : forall c r t0 h1 xs host s e s' rets t1 t2,
+  (0 <= c)%Q -> (0 <= r)%Q ->
+  Manager.find host (mg_tab (ws_mgr s)) = Some e ->
+  me_bucket e = final (new_bucket c r t0) h1 ->
+  not_evicted host (erase xs) ->
+  chain t1 (host_history host (erase xs)) -> end_time t1 (host_history host (erase xs)) <= t2 ->
+  wrun s xs = Some (s', rets) ->
+  (glen (host_returns host rets) <= c + secs (t2 - t1) * r)%Q.
+Proof. exact cancel_window_lemma. Qed.
+Print Assumptions C13_cancel_window_bound_across_stop.
